@@ -86,8 +86,52 @@ def with_ech_sizes(msg, enc_len, pay_len):
     return join_hello(prefix, out)
 
 
+def craft(msg, what, n):
+    """A capture derived from a real hello in which one opaque, sender-chosen length is n:
+    gks = key_exchange of the GREASE key_share entry, gext / gext2 = body of the first / second GREASE extension,
+    sid = legacy_session_id, ticket = session_ticket body."""
+    fill = lambda k, salt: bytes((salt + i * 13) % 256 for i in range(k))
+    grease = lambda v: (v & 0x0f0f) == 0x0a0a and (v >> 8) == (v & 0xff)
+    if what == "sid":
+        m = bytes(msg)
+        p = 4 + 2 + 32
+        inner = m[4:p] + bytes([n]) + fill(n, 0x21) + m[p + 1 + m[p]:]
+        return list(b"\x01" + len(inner).to_bytes(3, "big") + inner)
+    prefix, exts = split_hello(msg)
+    out, seen_g = [], 0
+    for t, b in exts:
+        if grease(t):
+            seen_g += 1
+        if (what == "gext" and grease(t) and seen_g == 1) or (what == "gext2" and grease(t) and seen_g == 2):
+            b = fill(n, 0x31)
+        elif what == "ticket" and t == 35:
+            b = fill(n, 0x41)
+        elif what == "gks" and t == 51:
+            q, ents = 2, b""
+            while q < len(b):
+                g = int.from_bytes(b[q:q + 2], "big")
+                k = int.from_bytes(b[q + 2:q + 4], "big")
+                data = fill(n, 0x51) if grease(g) else b[q + 4:q + 4 + k]
+                ents += b[q:q + 2] + len(data).to_bytes(2, "big") + data
+                q += 4 + k
+            b = len(ents).to_bytes(2, "big") + ents
+        out.append((t, b))
+    return join_hello(prefix, out)
+
+
 def ext_types(msg):
     return [t for t, _ in split_hello(msg)[1]]
+
+
+def unknown_findings(ctx):
+    """Findings recorded so far that no open entry of known_findings.json explains (same matching rule as vlib.finish).
+    A check keeps running its vacuity checks and canaries when only known findings were seen."""
+    import os
+    known = []
+    kf = os.path.join(vlib.VERIF, "known_findings.json")
+    if os.path.exists(kf):
+        known = [e for e in json.load(open(kf)).get("findings", []) if e.get("property") == ctx.pid and e.get("status", "open") == "open"]
+    return [f for f in ctx.findings if not any(re.fullmatch(e["signature"], f["sig"]) for e in known)]
 
 
 # ---------------------------------------------------------------- reading what TLC printed
